@@ -36,9 +36,12 @@ type Failure struct {
 	Count    int               `json:"count"`
 	Replayed bool              `json:"replayed"`
 	Known    string            `json:"known,omitempty"`
+	Class    string            `json:"class,omitempty"`
 }
 
-func (f *Failure) key() string { return f.Harness + "|" + f.Kind + "|" + f.Label + "|" + f.Site }
+func (f *Failure) key() string {
+	return f.Harness + "|" + f.Kind + "|" + f.Label + "|" + f.Site + "|" + f.Class
+}
 
 type Harness struct {
 	Name     string
@@ -250,6 +253,7 @@ func (in *Interp) inconclusive(what string) {
 func (in *Interp) recordFailure(th *Thread, f *Failure, cond *Term) {
 	f.Harness = in.harness.Name
 	f.Property = in.harness.Prop
+	f.Class = in.failClass
 	f.Path = append([]Decision(nil), in.path...)
 	f.Events = append([]string(nil), in.events...)
 	f.Count = 1
